@@ -10,6 +10,7 @@ import (
 	"strings"
 
 	"github.com/onflow/crypto/random"
+	"golang.org/x/crypto/chacha20"
 )
 
 // C15 case: a ChaCha20 PRG (seed, customizer) and a list of sampling operations.
@@ -26,6 +27,9 @@ type c15In struct {
 	Seed string  `json:"seed"`
 	Cust string  `json:"cust"`
 	Ops  []c15Op `json:"ops"`
+	// Start: when non-zero the generator is first moved to this byte position of its stream (a state with that
+	// counter is restored); the tape is then the keystream from that position, computed independently
+	Start uint64 `json:"start,omitempty"`
 }
 
 const c15TrackMax = 4000 // largest n for which the harness swaps a real identity slice
@@ -50,7 +54,7 @@ func c15Gen(tier string, r *rand.Rand) []Case {
 	var cs []Case
 	th := tier == "thorough"
 	mk := func(kind string, ops []c15Op) {
-		cs = append(cs, mkcase(kind, c15In{hx(rbytes(r, 32)), hx(rbytes(r, r.IntN(13))), ops}))
+		cs = append(cs, mkcase(kind, c15In{Seed: hx(rbytes(r, 32)), Cust: hx(rbytes(r, r.IntN(13))), Ops: ops}))
 	}
 	un := func(n uint64) c15Op { return c15Op{Op: "uintn", N: c15u64s(n)} }
 
@@ -184,6 +188,12 @@ func c15Gen(tier string, r *rand.Rand) []Case {
 			{Op: "samples", N: c15i64s(n), M: n / 2}, rd(), un(1), rd(), {Op: "subperm", N: c15i64s(n), M: n / 3}, un(math.MaxUint64)}
 		mk("reads-interleaved", ops)
 	}
+	// deep stream positions: the same sampling mixes on a generator restored at byte positions around and
+	// beyond 2^32 (more than 4 GiB drawn; the documented limit is 2^38), also through Store / Restore there
+	for _, st := range []uint64{1<<32 - 64, 1<<32 - 1, 1 << 32, 1<<32 + 130, 5<<32 + 77, 1<<37 + 1, 1<<38 - 4096} {
+		ops := []c15Op{un(1000), {Op: "perm", N: "5"}, {Op: "restore"}, un(1 << 40), {Op: "subperm", N: "9", M: 4}, {Op: "samples", N: "100", M: 3}, {Op: "read", K: 70}, {Op: "restore"}, {Op: "shuffle", N: "6"}}
+		cs = append(cs, mkcase("deep-position", c15In{Seed: hx(rbytes(r, 32)), Cust: hx(rbytes(r, r.IntN(13))), Ops: ops, Start: st}))
+	}
 	// sizes at narrowing boundaries.  (1) the population counter i+1 resp. n-i crosses 2^8 / 2^16 / 2^32
 	// inside one call; (2) negative sizes whose low 8 / 16 / 32 bits are a small valid size; (3) sample
 	// sizes larger than the population by a multiple of 2^8 / 2^16 / 2^32
@@ -256,6 +266,13 @@ func c15RunOnce(in c15In) ([]string, []c15Obs, uint64, bool, error) {
 	prg, err := random.NewChacha20PRG(unhx(in.Seed), unhx(in.Cust))
 	if err != nil {
 		return nil, nil, 0, false, err
+	}
+	if in.Start != 0 {
+		st := prg.Store()
+		binary.LittleEndian.PutUint64(st[len(st)-8:], in.Start)
+		if prg, err = random.RestoreChacha20PRG(st); err != nil {
+			return nil, nil, 0, false, implViolation("RestoreChacha20PRG of a state at byte position %d failed: %v", in.Start, err)
+		}
 	}
 	var terms []string
 	var obs []c15Obs
@@ -416,7 +433,7 @@ func c15RunOnce(in c15In) ([]string, []c15Obs, uint64, bool, error) {
 		return nil, nil, 0, false, err
 	}
 	st := prg.Store()
-	consumed := binary.LittleEndian.Uint64(st[len(st)-8:])
+	consumed := binary.LittleEndian.Uint64(st[len(st)-8:]) - in.Start
 	return terms, obs, consumed, special, nil
 }
 
@@ -442,7 +459,20 @@ func c15Run(c Case) (Result, error) {
 		return Result{}, err
 	}
 	tape := make([]byte, consumed)
-	g.Read(tape)
+	if in.Start == 0 {
+		g.Read(tape)
+	} else {
+		// RFC 8439 keystream at that position from x/crypto's primitive (key and nonce as the generator stores them)
+		st := g.Store()
+		ci, err := chacha20.NewUnauthenticatedCipher(st[:32], st[32:44])
+		if err != nil {
+			return Result{}, err
+		}
+		ci.SetCounter(uint32(in.Start / 64))
+		buf := make([]byte, in.Start%64+consumed)
+		ci.XORKeyStream(buf, buf)
+		tape = buf[in.Start%64:]
+	}
 	term := fmt.Sprintf("mkCase %s\n  %s\n  %s", cqs(hx(tape)), cqlist(t1), cqlist(t2))
 	return Result{Coq: term, Key: string(c.Input), Nontrivial: consumed > 8 || special,
 		Obs: map[string]any{"consumed": consumed, "ops": obs}}, nil
